@@ -2,7 +2,7 @@
 # Reverts each fix: commit in a scratch worktree and runs the property's quick
 # check at several seeds: the repaired defect must be re-detected at every seed.
 cd /verif
-declare -A MAP=( [fcccfca]=C14 [7eaced0]=C01 [a13baa4]=C15 [ad75b25]=C18 [c0901cf]=C18 [2f0d3ac]=C08 [bffdb87]=C06 [3874a1a]=C08 [39ac5e1]=C08,C06 [e6e70c4]=C07 [4f4ec02]=C05 [72173ea]=C04 [86ca21a]=C03,C12,C04 [40e5c1b]=C09 [6ecc02e]=C09 [fdc0d7c]=C16 )
+declare -A MAP=( [c8af781]=C11,C01 [fcccfca]=C14 [7eaced0]=C01 [a13baa4]=C15 [ad75b25]=C18 [c0901cf]=C18 [2f0d3ac]=C08 [bffdb87]=C06 [3874a1a]=C08 [39ac5e1]=C08,C06 [e6e70c4]=C07 [4f4ec02]=C05 [72173ea]=C04 [86ca21a]=C03,C12,C04 [40e5c1b]=C09 [6ecc02e]=C09 [fdc0d7c]=C16 )
 for h in "${!MAP[@]}"; do
   for seed in ${SEEDS:-1 2 3}; do
     VERIF_SEED=$seed MUTANT_LINES=0 bin/mutant_run.sh revert:$h ${MAP[$h]} quick 2>&1 | grep '^==' | sed "s/^/seed=$seed /"
